@@ -80,6 +80,16 @@ fn dispatch(id: &str, ra: RunArgs) -> i32 {
         "C07" => run_check(checks::c07::C07, ra),
         "C08" => run_check(checks::c08::C08, ra),
         "C19" => run_check(checks::c19::C19, ra),
+        "C18" => run_check(checks::c18::C18, ra),
+        "C20" => run_check(checks::c20::C20, ra),
+        "C21" => run_check(checks::c21::C21, ra),
+        "C24" => run_check(checks::c24::C24, ra),
+        "C22" => run_check(checks::c22::C22, ra),
+        "C15" => run_check(checks::c15::C15, ra),
+        "C23" => run_check(checks::c23::C23, ra),
+        "C25" => run_check(checks::c25::C25, ra),
+        "C35" => run_check(checks::c35::C35, ra),
+        "C37" => run_check(checks::c37::C37, ra),
         "C16" => run_check(checks::c16::C16, ra),
         "C17" => run_check(checks::c17::C17, ra),
         "C01" => run_check(checks::simchecks::c01(), ra),
@@ -92,7 +102,10 @@ fn dispatch(id: &str, ra: RunArgs) -> i32 {
         "C26" => run_check(checks::simchecks::c26(), ra),
         "C27" => run_check(checks::simchecks::c27(), ra),
         "C28" => run_check(checks::simchecks::c28(), ra),
-        "C07sim" => run_check(checks::simchecks::c07_cluster(), ra),
+        "C07sim" => {
+            unsafe { std::env::set_var("VERIF_EVIDENCE_SUFFIX", ".cluster") };
+            run_check(checks::simchecks::c07_cluster(), ra)
+        }
         "C12" => run_check(checks::simchecks::c12(), ra),
         "C32" => run_check(checks::simchecks::c32(), ra),
         "C10" => run_check(checks::simchecks::c10(), ra),
